@@ -9,7 +9,7 @@ run database through a fresh sqlite3 connection.
 from __future__ import annotations
 
 import sqlite3
-from typing import Callable, Dict, List, Optional, Tuple
+from typing import Callable, List, Optional, Tuple
 
 
 async def fair_rounds(drv, k: int) -> None:
